@@ -212,6 +212,16 @@ func (k *Kernel) At(at int64, key string, run func()) {
 	}
 }
 
+// freeGap: in the free-running race pass half of the short gaps between operations (not the
+// first two, which set the scene) collapse to zero, so that application calls, requests and
+// their responses really coincide; a pure function of the plan.
+func freeGap(k *Kernel, p *Plan, idx int, g int64) int64 {
+	if k.Free && idx >= 2 && g < 3e9 && Mix(p.Seed, uint64(p.Run), uint64(idx))%2 == 0 {
+		return 0
+	}
+	return g
+}
+
 // OpIssued arms the stalls that wait for an operation (Stall.AfterOp).
 func (k *Kernel) OpIssued(id int) {
 	if k.Free || id == 0 {
